@@ -37,6 +37,9 @@ def nproc():
 def pool_map(fn, jobs, chunksize=2):
     if not jobs:
         return []
+    cap = int(os.environ.get("VERIF_SMOKE_JOBS", "0"))   # development only: exercise a tier's code paths on an evenly strided subset
+    if cap and len(jobs) > cap:
+        jobs = jobs[:: max(1, len(jobs) // cap)][:cap]
     with Pool(min(nproc(), max(1, len(jobs)))) as p:
         return p.map(fn, jobs, chunksize=chunksize)
 
